@@ -1434,6 +1434,7 @@ func (se *SessionExecutor) rollback() (err error) {
 	se.status &= ^mysql.ServerStatusInTrans
 	for _, pc := range se.txConns {
 		if pc.IsClosed() {
+			pc.Recycle()
 			continue
 		}
 		err = pc.Rollback()
